@@ -3,8 +3,10 @@ package props
 import (
 	"bytes"
 	"crypto/sha256"
+	"encoding/binary"
 	"encoding/hex"
 	"fmt"
+	"github.com/ethereum/go-ethereum/common"
 	"math/big"
 	"strings"
 	"testing"
@@ -28,19 +30,19 @@ import (
 // applied on twin instances and must lead to different state.
 
 type HashCase struct {
-	Type   string `json:"type"`   // sendtohub | transfer | batch | call | signerset | boundary
-	Chain  int    `json:"chain"`  // 0 ethereum, 1 bsc, 2 minter
-	Field  int    `json:"field"`  // index into the type's mutator list
+	Type   string `json:"type"`           // sendtohub | transfer | batch | call | signerset | boundary
+	Chain  int    `json:"chain"`          // 0 ethereum, 1 bsc, 2 minter
+	Field  int    `json:"field"`          // index into the type's mutator list
 	Name   string `json:"name,omitempty"` // the mutator's name (recorded by the generator; decides when present, so that saved cases survive changes of the list)
-	Seed   int    `json:"seed"`   // picks concrete values
-	Prefix bool   `json:"prefix"` // external sender spelled with 0x
+	Seed   int    `json:"seed"`           // picks concrete values
+	Prefix bool   `json:"prefix"`         // external sender spelled with 0x
 }
 
-var hashTypes = []string{"sendtohub", "transfer", "batch", "call", "signerset", "boundary", "boundary2"}
+var hashTypes = []string{"sendtohub", "transfer", "batch", "call", "signerset", "boundary", "boundary2", "crosstype"}
 
 func genHashCase(t *rapid.T) interface{} {
 	c := genHashCaseRaw(t)
-	if c.Type != "boundary" && c.Type != "boundary2" {
+	if c.Type != "boundary" && c.Type != "boundary2" && c.Type != "crosstype" {
 		chain := []string{"ethereum", "bsc", "minter"}[c.Chain%3]
 		if muts := mutatorsFor(c.Type, chain, nil); len(muts) > 0 {
 			c.Name = muts[c.Field%len(muts)].name
@@ -451,6 +453,43 @@ func runHashCase(ci interface{}, rec *pbt.Rec) *pbt.Failure {
 			}
 			e1, e2 = mk("1", shifted), mk("10", rest)
 			field = "TransferToChainEvent.boundary(ExternalCoinId|Amount)"
+		}
+	} else if typ == "crosstype" {
+		// two events of different TYPE at the same nonce and height whose hashed byte strings can be made to coincide:
+		// a contract-call report whose free-form scope / nonce imitate the fields of another event
+		fx := newFixture()
+		call := func(nonce uint64, b []byte, inv uint64, height uint64) mtypes.ExternalEvent {
+			return &mtypes.ContractCallExecutedEvent{EventNonce: nonce, InvalidationScope: b, InvalidationNonce: inv, ExternalHeight: height, TxHash: fmt.Sprintf("0x%064x", 42)}
+		}
+		split := func(b []byte) ([]byte, uint64) {
+			if len(b) < 9 {
+				return nil, 0
+			}
+			return b[:len(b)-8], binary.BigEndian.Uint64(b[len(b)-8:])
+		}
+		cc := *c
+		cc.Prefix = false
+		switch c.Field % 3 {
+		case 0:
+			if fx.batch[chain] == nil {
+				return nil
+			}
+			b := baseEvent("batch", chain, &cc, fx).(*mtypes.BatchExecutedEvent)
+			e1, e2 = b, call(b.EventNonce, []byte(b.ExternalCoinId), b.BatchNonce, b.ExternalHeight)
+			field = "type(BatchExecutedEvent|ContractCallExecutedEvent)"
+		case 1:
+			d := baseEvent("sendtohub", chain, &cc, fx).(*mtypes.SendToHubEvent)
+			rcv, _ := sdk.AccAddressFromBech32(d.CosmosReceiver)
+			raw := append(append(append([]byte(d.ExternalCoinId), d.Amount.BigInt().Bytes()...), common.Hex2Bytes(d.Sender)...), rcv.Bytes()...)
+			scope, inv := split(raw)
+			e1, e2 = d, call(d.EventNonce, scope, inv, d.ExternalHeight)
+			field = "type(SendToHubEvent|ContractCallExecutedEvent)"
+		default:
+			d := baseEvent("transfer", chain, &cc, fx).(*mtypes.TransferToChainEvent)
+			raw := append(append(append(append([]byte(d.ExternalCoinId), d.Amount.BigInt().Bytes()...), common.Hex2Bytes(d.Sender)...), []byte(d.ExternalReceiver)...), []byte(d.ReceiverChainId)...)
+			scope, inv := split(raw)
+			e1, e2 = d, call(d.EventNonce, scope, inv, d.ExternalHeight)
+			field = "type(TransferToChainEvent|ContractCallExecutedEvent)"
 		}
 	} else if typ == "boundary2" {
 		// two numeric fields next to each other: bytes moved from the end of the amount to the front of the fee
